@@ -16,12 +16,13 @@ callback, the next argument, the end of the list — is the function whose state
 theorem C04_dispatch_generated (D : Desc) (s : St) (i : SvcIn) : parseWriteArgs D s i = Gen.parse_write_args D s i :=
   parseWriteArgs_generated D s i
 
-/-- the counters this property's theorems keep as unbounded natural numbers (`var_num`, `index`, `position`, `data_size`) are declared
+/-- the counters this property's theorems keep as unbounded natural numbers (`var_num`, `index`, `length`, `position`, `data_size`) are declared
 `size_t` in `cat.h` — 64 bits on the target, so they cannot wrap on any buffer, table or line that exists; the widths
 are read from the struct declarations on every run (translator item T21) -/
 theorem C04_counters_unbounded :
     Gen.width_cmd_var_num = 64 ∧
     Gen.width_obj_index = 64 ∧
+    Gen.width_obj_length = 64 ∧
     Gen.width_obj_position = 64 ∧
     Gen.width_var_data_size = 64 := by decide
 
